@@ -152,7 +152,10 @@ def validate_shim(ck, h, n_ops):
             errs = [abs(mp.mpf(z.real) - ref.real) / max(abs(ref.real), mp.mpf(10) ** -300), abs(mp.mpf(z.imag) - ref.imag) / max(abs(ref.imag), mp.mpf(10) ** -300)]
             err = float(max(errs))
         else:
-            err = float(abs(mp.mpc(z.real, z.imag) - ref) / max(abs(ref), mp.mpf(10) ** -300))
+            den = abs(ref)
+            if op in ("add", "sub", "addf", "subf", "fadd", "fsub", "addassign"):
+                den = max(den, abs(A), abs(B))  # sums are exact to an ulp of the operands, not of a cancelled result
+            err = float(abs(mp.mpc(z.real, z.imag) - ref) / max(den, mp.mpf(10) ** -300))
         if not (err <= ulps * ULP):
             fails.append((op, f"a={a} b={b} k={k}: shim {z} vs {complex(ref)} rel err {err:.2e} > {ulps:.0f} ulp"))
     return fails
@@ -176,6 +179,14 @@ def sample_points(ck, n):
             N = complex(mellin.Talbot_path(t, r, o))
         elif kind == "integer":
             N = complex(float(rng.integers(2, 30)), 0.0)
+        elif kind == "near-one" and (i // 28) % 2:
+            # edge of the removable-singularity patch of gamma_nsv^(2) (|N-1| < 1e-5, |Im N| < 1e-5)
+            # half of the probes between the disc and its bounding square, half well inside the disc
+            if (i // 56) % 2:
+                x, y = rng.uniform(0.75, 0.99), rng.uniform(0.70, 0.99)
+            else:
+                x, y = rng.uniform(0.1, 0.6), rng.uniform(0.1, 0.6)
+            N = 1.0 + 1e-5 * complex(x if rng.integers(0, 2) else -x, y if rng.integers(0, 2) else -y)
         elif kind == "near-one":
             N = 1.0 + complex(rng.normal(), rng.normal()) * 10 ** rng.uniform(-6, -1)
         elif kind == "off-contour":
@@ -374,14 +385,16 @@ def run(ck):
                 ck.hit("g3_shift_entries_adjudicated")
                 if dx <= TOL * sc[idx]:
                     reN = r["args"]["N"][0]
-                    relg = float(d[idx] / sc[idx])
+                    # accuracy of the parametrisation is absolute (|delta g3| ~ 1e-6 times a coefficient of
+                    # O(32 CF)), so near a zero of the entry it is referred to the natural size 1
+                    relg = float(d[idx] / max(sc[idx], 1.0))
                     g3_obs.append((reN, relg))
                     if reN >= 0.5 and relg > G3_TOL:
                         case_ok = False
                         k = f"C28/{fn}/{slot}/g3-approximation-accuracy"
                         if k not in reported:
                             reported.add(k)
-                            ck.violation(k, f"{fn}[{slot}]: python (g3 parametrised at N+2) and rust (exact shift) differ by {relg:.2e} relative at Re N >= 0.5, beyond the parametrisation accuracy {G3_TOL}", dict(wit, entry=slot, python=py[idx], rust=rs[idx], python_exact_shift=pyx[idx]))
+                            ck.violation(k, f"{fn}[{slot}]: python (g3 parametrised at N+2) and rust (exact shift) differ by {relg:.2e} (relative to max(|entry|,1)) at Re N >= 0.5, beyond the parametrisation accuracy {G3_TOL}", dict(wit, entry=slot, python=py[idx], rust=rs[idx], python_exact_shift=pyx[idx]))
                     continue
                 d_use, p_use = dx, pyx[idx]
             else:
